@@ -4,7 +4,7 @@ index, so skew never causes a spurious mismatch."""
 import io
 
 from .common import HarnessError, Violation
-from . import world
+from . import world, common
 
 
 class Live(object):
@@ -93,6 +93,26 @@ class Replica(object):
         return self.sim.tracer.trace[name][cycle]
 
     def advance(self, tape, n, method):
+        """Consume n cycles. A planted rtl_assert may fire inside: the exception is caught (the
+        step it fired in is complete and traced), and the rest of the batch is issued again."""
+        left = n
+        while left > 0:
+            before = world.tracelen(self.sim)
+            try:
+                self._advance(tape, left, method)
+                return
+            except common.PlantedAssertion:
+                self.fired = getattr(self, 'fired', 0) + 1
+                done = world.tracelen(self.sim) - before
+                if before < 0 or not (1 <= done <= left):
+                    raise common.ReplicaViolation(Violation(
+                        'rtl_assert', 'trace_not_extended_by_the_asserting_step',
+                        {'sim': self.label, 'cycle': self.pos, 'trace_len_before': before,
+                         'trace_len_after': before + done, 'method': method}, [self.label]))
+                self.pos += done
+                left -= done
+
+    def _advance(self, tape, n, method):
         chunk = tape[self.pos:self.pos + n]
         if method == 'run' and hasattr(self.sim, 'run'):
             self.sim.run([dict(c) for c in chunk])
@@ -149,7 +169,7 @@ def run_interleaved(replicas, tape, sched, faults, res, on_cycle=None, before=No
                 continue
             applied.add((fi, r.pos, r.label))
             v = world.apply_reject(r.sim, f, tape[r.pos], r.label)
-            res.faults.hit('reject_step')
+            res.faults.hit('reject_step' if f['value'] != 'rom_hole' else 'rom_hole_read')
             res.log.log('fault', 'reject_step', [r.label, f['wire']], v is None)
             if v:
                 return v
@@ -162,6 +182,8 @@ def run_interleaved(replicas, tape, sched, faults, res, on_cycle=None, before=No
             r.advance(tape, b, m)
         except HarnessError:
             raise
+        except common.ReplicaViolation as e:
+            return e.violation
         except Exception as e:
             import pyrtl
             if isinstance(e, (pyrtl.PyrtlError, pyrtl.PyrtlInternalError, ArithmeticError,
